@@ -206,13 +206,98 @@ fn nonce_pair_ops(p: &Proto, all_pairs: bool, stateful_reader: bool) -> Vec<Op> 
     ops
 }
 
+
+/// Session- and direction-specific keys after unusual (but legitimate) API use: (V1) dangerously_get_raw_split
+/// queried early - before the first message and after it - by both parties of both sessions; (V2) both parties
+/// install two different manual keys with one rekey_manually(Some, Some) call. Then: the other session's message
+/// (V1 only - under V2 both sessions hold the same manual keys by the caller's choice), each party's own message
+/// reflected back at it, and the genuine messages.
+fn odd_api_use(ctx: &Ctx) {
+    let mut jobs = vec![];
+    for (c, b) in cipher_backends() {
+        for pat in ["NN", "XX", "IK", "NK", "N", "X"] {
+            for stateless in [false, true] {
+                for variant in [1u8, 2] {
+                    jobs.push((c, b, pat, stateless, variant));
+                }
+            }
+        }
+    }
+    jobs.par_iter().for_each(|(c, b, pat, stateless, variant)| {
+        let p = proto(pat, &[], DhAlg::X25519, *c, HashAlg::Sha256);
+        let oneway = p.pattern.is_oneway();
+        let mode = if *stateless { Mode::SS } else { Mode::TT };
+        let build = |eph: u8, deliveries: &dyn Fn(&mut Vec<Op>)| -> (Config, Vec<Op>) {
+            let cfg = session_cfg(&p, *b, eph);
+            let mut ops = vec![];
+            if *variant == 1 {
+                ops.push(Op::RawSplit { side: Side::I });
+                ops.push(Op::RawSplit { side: Side::R });
+            }
+            let hs = sess::handshake_ops(&p, &[0, 0, 0, 0]);
+            for (k, op) in hs.into_iter().enumerate() {
+                ops.push(op);
+                if *variant == 1 && k == 1 {
+                    ops.push(Op::RawSplit { side: Side::I });
+                    ops.push(Op::RawSplit { side: Side::R });
+                }
+            }
+            ops.extend(sess::convert_ops(mode));
+            if *variant == 2 {
+                ops.push(Op::RekeyManual { side: Side::I, i: Some(1), r: Some(2) });
+                ops.push(Op::RekeyManual { side: Side::R, i: Some(1), r: Some(2) });
+            }
+            ops.push(if *stateless { Op::SWrite { side: Side::I, nonce: 0, plen: 7, cap: Cap::Roomy } } else { Op::TWrite { side: Side::I, plen: 7, cap: Cap::Roomy } });
+            if !oneway {
+                ops.push(if *stateless { Op::SWrite { side: Side::R, nonce: 0, plen: 7, cap: Cap::Roomy } } else { Op::TWrite { side: Side::R, plen: 7, cap: Cap::Roomy } });
+            }
+            deliveries(&mut ops);
+            (cfg, ops)
+        };
+        // the parallel session's transport messages
+        let (fcfg, fops) = build(40, &|_| {});
+        let fe = Exec::run(&fcfg, &fops);
+        let foreign: Vec<Vec<u8>> = fe.wires.iter().flat_map(|w| w.iter().filter(|x| matches!(x.meta, crate::exec::WireMeta::T { .. })).map(|x| x.bytes.clone())).collect();
+        let rd = |side: Side, m: Msg| if *stateless { Op::SRead { side, nonce: 0, msg: m, cap: Cap::Roomy } } else { Op::TRead { side, msg: m, cap: Cap::Roomy } };
+        let (cfg, ops) = build(0, &|ops: &mut Vec<Op>| {
+            if *variant == 1 {
+                for f in &foreign {
+                    ops.push(rd(Side::R, Msg::Raw(f.clone())));
+                    if !oneway {
+                        ops.push(rd(Side::I, Msg::Raw(f.clone())));
+                    }
+                }
+            }
+            if !oneway {
+                // reflection (both receiving nonces are still 0, as are the messages' numbers)
+                ops.push(rd(Side::I, Msg::Last(Side::I)));
+                ops.push(rd(Side::R, Msg::Last(Side::R)));
+                ops.push(rd(Side::I, Msg::Last(Side::R)));
+            }
+            ops.push(rd(Side::R, Msg::Last(Side::I)));
+        });
+        let e = Exec::run(&cfg, &ops);
+        ctx.add(&ctx.evaluations, e.steps.len() as u64);
+        ctx.add(&ctx.transitions, e.steps.len() as u64);
+        ctx.add(&ctx.traces, 1);
+        let rejected = e.steps.iter().filter(|s| matches!(s.op, Op::TRead { .. } | Op::SRead { .. }) && !s.real.is_ok()).count();
+        ctx.add(&ctx.nontrivial, rejected as u64);
+        ctx.count("deliveries_rejected", rejected as u64);
+        ctx.count("deliveries_accepted", e.steps.iter().filter(|s| matches!(s.op, Op::TRead { .. } | Op::SRead { .. }) && s.real.is_ok()).count() as u64);
+        for m in sess::filter(&e, &CATS) {
+            ctx.violation(format!("{} ({})", sess::signature(&e, m), if *variant == 1 { "raw split queried early by both parties" } else { "after rekey_manually with two keys" }), format!("{} {:?}: {}", p.name, b, m.detail), sess::case_json(&cfg, &ops[..=m.step.min(ops.len() - 1)]));
+        }
+    });
+    ctx.count("odd_api_use_sessions", jobs.len() as u64);
+}
+
 pub fn run(tier: Tier) -> i32 {
     let ctx = Ctx::new("C04", tier, "fault_enumeration");
     // the whole thorough alphabet costs a few seconds: both tiers run it
     let quick = false;
     // thorough: every psk-modifier subset of every pattern (556 names per cipher x backend) and more payload lengths
     let thorough = !ctx.quick();
-    ctx.set_rule("case = one delivery to a transport-mode read: the peer's genuine message altered by every single-bit flip, every truncation length, extensions, all-zero / all-ones strings, reflection to its own sender, the corresponding message of a parallel session with the same static keys, a handshake message, and (stateless) the genuine message under every other nonce of a 80-value boundary alphabet; stateful and stateless, both directions, 38 patterns + psk variants x 3 ciphers x 2 backends, output buffers comfortably large and (un-modified patterns) exactly payload-sized / payload + 9; oracle: Ok iff unaltered message of this session, direction, key and nonce. non-trivial = the delivery was rejected as required");
+    ctx.set_rule("case = one delivery to a transport-mode read: the peer's genuine message altered by every single-bit flip, every truncation length, extensions, all-zero / all-ones strings, reflection to its own sender, the corresponding message of a parallel session with the same static keys, a handshake message, and (stateless) the genuine message under every other nonce of a 80-value boundary alphabet; stateful and stateless, both directions, 38 patterns + psk variants x 3 ciphers x 2 backends, output buffers comfortably large and (un-modified patterns) exactly payload-sized / payload + 9; the cross-session / reflection deliveries again after dangerously_get_raw_split was queried early by both parties and after rekey_manually with two keys; oracle: Ok iff unaltered message of this session, direction, key and nonce. non-trivial = the delivery was rejected as required");
     // last element: output buffers of the reads - 0 comfortably large, 1 exactly the payload size, 2 payload size + 9
     let mut cases: Vec<(Proto, Backend, bool, usize, usize, u8)> = vec![];
     let base = patterns::base_patterns();
@@ -276,6 +361,7 @@ pub fn run(tier: Tier) -> i32 {
             ctx.violation(sess::signature(&e, m), format!("{} {:?}: {}", p.name, b, m.detail), sess::case_json(&cfg, &ops[..=m.step.min(ops.len() - 1)]));
         }
     });
+    odd_api_use(&ctx);
     // stateless: genuine message under a different nonce
     let pair_cases: Vec<(Proto, Backend, bool)> = cipher_backends().into_iter().flat_map(|(c, b)| vec![(proto("NN", &[], DhAlg::X25519, c, HashAlg::Sha256), b, false), (proto("N", &[], DhAlg::X25519, c, HashAlg::Blake2s), b, false), (proto("NN", &[], DhAlg::X25519, c, HashAlg::Sha512), b, true)]).collect();
     pair_cases.par_iter().for_each(|(p, b, stateful_reader)| {
